@@ -3,5 +3,7 @@ from props import c06, c05
 
 
 def generate(rng, n, tier):
+    from props import corners
+    _corner = corners.setitem_cases()
     half = n // 2
-    return c06.generate(rng, half, tier, cast_p=0.8) + c05.generate(rng, n - half, tier, cast_p=0.9)
+    return _corner + c06.generate(rng, half, tier, cast_p=0.8) + c05.generate(rng, n - half, tier, cast_p=0.9)
